@@ -177,11 +177,18 @@ def run_tlc(module, cfg, workdir, *, workers=None, env=None, simulate=None, dept
     e.pop("JAVA_TOOL_OPTIONS", None)
     if env:
         e.update({k: str(v) for k, v in env.items()})
-    try:
-        p = subprocess.run(cmd, cwd=SPEC, env=e, capture_output=True, text=True, timeout=timeout)
-    except subprocess.TimeoutExpired as ex:
+    for attempt in range(3):
+        try:
+            p = subprocess.run(cmd, cwd=SPEC, env=e, capture_output=True, text=True, timeout=timeout)
+        except subprocess.TimeoutExpired as ex:
+            shutil.rmtree(meta, ignore_errors=True)
+            raise MachineryError(f"TLC timed out after {timeout}s on {module}/{cfg}") from ex
+        # a JVM that never got as far as TLC's banner (killed, or could not start under heavy load) says nothing about the
+        # specification: try again
+        if "TLC2 Version" in p.stdout or attempt == 2:
+            break
         shutil.rmtree(meta, ignore_errors=True)
-        raise MachineryError(f"TLC timed out after {timeout}s on {module}/{cfg}") from ex
+        time.sleep(5 * (attempt + 1))
     shutil.rmtree(meta, ignore_errors=True)
     r = TLCResult()
     r.out = p.stdout + p.stderr
